@@ -16,7 +16,7 @@ def stun_change_port(rng, magic=True):
     return stun.msg(1, tid, struct.pack("!HH", 3, 4) + b"\0\0\0\x02")
 
 
-def reply_mix(ctx, cfg, rounds=1, on_reply=None, tcp=True):
+def reply_mix(ctx, cfg, rounds=1, on_reply=None, tcp=True, own_src=0.03):
     """Drive a mix of answerable traffic with randomised MACs / addresses / ports.  on_reply(frame, res, tag) is
     called for every frame sent (res.kind 'R' or 'N')."""
     rng = ctx.rng
@@ -30,7 +30,7 @@ def reply_mix(ctx, cfg, rounds=1, on_reply=None, tcp=True):
 
     for _ in range(rounds):
         for v6 in (False, True):
-            e = gen.endp(rng, cfg, v6)
+            e = gen.endp(rng, cfg, v6, own_src=own_src)
             if not v6:
                 emit("arp", gen.arp_request(e))
                 # relayed / proxied ARP: the sender hardware address inside the request differs from the frame's source
@@ -69,7 +69,7 @@ def reply_mix(ctx, cfg, rounds=1, on_reply=None, tcp=True):
                 for name, u, t in apps + [("stuncp", None, stun_change_port(rng, True)), ("stuncp", None, stun_change_port(rng, True))]:
                     e = gen.endp(rng, cfg, v6)
                     dp = rng.choice([65535, gen.rnd_port(rng)]) if name == "stuncp" else gen.rnd_port(rng)
-                    f = Flow(ctx, e, gen.rnd_port(rng), dp, isn=rng.choice([0xFFFFFFFF, 0xFFFFFFFE, rng.getrandbits(32)]))
+                    f = Flow.fresh(ctx, e, dp, isn=rng.choice([0xFFFFFFFF, 0xFFFFFFFE, rng.getrandbits(32)]))
                     r = emit("tcp_syn", f.syn_frame())
                     a = pkt.parse(r.reply) if r.kind == "R" else {}
                     if a.get("flags") != (SYN | ACK):
